@@ -425,7 +425,7 @@ pub fn guarded(prop: &str, f: impl FnOnce() -> Out, describe: impl FnOnce() -> S
     match crate::vm::catch(f) {
         Ok(o) => o,
         Err(p) => {
-            let site = p.rsplit(" @ ").next().unwrap_or("").rsplit('/').next().unwrap_or("").to_string();
+            let site = crate::diff::panic_site(&p);
             Err(Viol::new(format!("{prop}:panic:{site}"), format!("panic: {p}"), json!({"generator_input": describe()})))
         }
     }
